@@ -31,8 +31,8 @@ Definition pw_reply_rec (c0 : crec) (ks : list N) (x : pw_res) : crec :=
   match x with
   | PwOk m o =>
       let c := add_pwok c ks in
-      let c := setn c FMinc (N.max (cn c0 FMinc) m) in
-      let c := if o =? 0 then setn (setn c FFb1 1) (if fb c0 FTried1 then FFb else FFb1) 1 else setn c F1pcTs o in
+      let c := if negb (fb c FHasm) || existsb (fun k => mem k (c_lm c)) ks then setn c FMinc (N.max (cn c FMinc) m) else c in
+      let c := if o =? 0 then (if onepc_on c then setn (setn c FFb1 1) FFb 1 else setn c FFb1 1) else setn c F1pcTs o in
       if m =? 0 then setn c FFb 1 else c
   | PwErr _ => setn (add_kl c KNeg ks) FPwErr 1
   | PwRegion => add_kl c KNeg ks
@@ -47,7 +47,7 @@ Definition told_guard (c : crec) (t : told_res) : bool :=
   match t with
   | TOk => negb (cn c FPcOk =? 0) || negb (cn c F1pcTs =? 0) ||
            (async_kept c && fb c FHasm && subset (c_lm c) (c_pwok c) && pw_closed c)
-  | TErr => neg_ok c && (negb (commit_point_pw c) || err_ok c) && (cn c F1pcTs =? 0)
+  | TErr => neg_ok c && (negb (cp_active c) || err_ok c) && (cn c F1pcTs =? 0)
   | TUndet => (cn c FPcRep <? cn c FPcSent) || (commit_point_pw c && (cn c FPwRep <? cn c FPwSent))
   end.
 Definition told_rec (c : crec) (t : told_res) : crec :=
@@ -102,7 +102,7 @@ Definition vstep (v : view) (e : event) (v' : view) : Prop :=
       let c := vgetc v T in
       if has_prim c ks then v' = vcl v T (cm_reply_rec c C x) else v' = v
   | ERbSend r T ks =>
-      (neg_ok (vgetc v T) && (negb (commit_point_pw (vgetc v T)) || err_ok (vgetc v T))) = true /\ v' = vcl (vsent v e) T (setn (vgetc v T) FDead 1)
+      (neg_ok (vgetc v T) && (negb (cp_active (vgetc v T)) || err_ok (vgetc v T))) = true /\ v' = vcl (vsent v e) T (setn (vgetc v T) FDead 1)
   | ERbDeliver r T ks x => v' = vdlv v (ERbReply r T ks x)
   | EPlSend r T p f ks =>
       let c := vgetc v T in
